@@ -143,3 +143,29 @@ Example C04_example :
    accepts "[0]" && accepts "[:]" && accepts "f(a, b)" && accepts "{a: b, c: d}" && accepts "[::]" &&
    accepts "f(&a, @)" && accepts "a[*].[x,y]" && accepts "*.x" && accepts "a.b(c)" && accepts "(a).b")%bool = true.
 Proof. vm_compute. reflexivity. Qed.
+
+(* the byte-level statement is not vacuous: a text written unlike the canonical spelling
+   (a number with leading zeros, a quoted name with a \u escape, a raw string with an escaped quote, spaces)
+   that reads, token by token, as the spelling of a well-precedenced tree — and Compile
+   returns that tree's AST *)
+Definition mtext4 (v : @value FloatNum) : bytes := match json_marshal v with Some t => t | None => [] end.
+Definition e_ex4 : @expr FloatNum :=
+  EFilter (Some (ESub (EIndex (Some (EIdent false (str "foo"))) 7) (EIdent true (str "bc"))))
+          (ECmp CmpLT (EIdent false (str "x")) (ERaw (str "it's"))) RNone.
+Definition l_ex4 : list (tokType * bytes) :=
+  [(tUnquotedIdentifier, str "foo"); (tLbracket, str "["); (tNumber, str "007"); (tRbracket, str "]"); (tDot, str ".");
+   (tQuotedIdentifier, str "bc"); (tFilter, str "[?"); (tUnquotedIdentifier, str "x"); (tLT, str "<"); (tStringLiteral, str "it's"); (tRbracket, str "]")].
+Example C04_sentence_example :
+  Lex (str "foo[ 007 ]. ""b\u0063""[?x<'it\'s']") l_ex4 /\ reads_as l_ex4 (render mtext4 e_ex4) /\
+  wp e_ex4 = true /\ npos e_ex4 = true /\
+  aobs_match false (aobs_of (Api.compile (str "foo[ 007 ]. ""b\u0063""[?x<'it\'s']"))) (AOk (compile e_ex4)) = true.
+Proof.
+  split; [|split; [|split; [|split]]].
+  - (apply lex_exact; exists (match tokenize (str "foo[ 007 ]. ""b\u0063""[?x<'it\'s']") with Ok ts => removelast ts | _ => [] end); split; vm_compute; reflexivity).
+  - unfold reads_as, l_ex4. set (r := render mtext4 e_ex4). vm_compute in r. subst r.
+    repeat (apply Forall2_cons; [split; [reflexivity | vm_compute; first [exact I | reflexivity | (split; [reflexivity | discriminate])]] |]).
+    apply Forall2_nil.
+  - vm_compute. reflexivity.
+  - vm_compute. reflexivity.
+  - vm_compute. reflexivity.
+Qed.
